@@ -64,6 +64,60 @@ def step(ctx, word):
     return ((ikey, rkey), engine.digest(ref_tree(text, container, scripting)), v)
 
 
+# -- DOCTYPE part: every quirks-mode rule of the "initial" insertion mode, flat exhaustive ------------------------
+# The mode is observed through the tree (quirks mode keeps <p> open at <table>) and through parser.compatMode.
+
+def doctype_cases():
+    pubs = [None, "", "-//W3C//DTD HTML 4.01//EN", "-//W3C//DTD XHTML 1.0 Strict//EN", "-//W3C//DTD XHTML 1.1//EN"]
+    exact = ["-//W3O//DTD W3 HTML Strict 3.0//EN//", "-/W3C/DTD HTML 4.0 Transitional/EN", "HTML"]
+    limited = ["-//W3C//DTD XHTML 1.0 Frameset//", "-//W3C//DTD XHTML 1.0 Transitional//",
+               "-//W3C//DTD HTML 4.01 Frameset//", "-//W3C//DTD HTML 4.01 Transitional//"]
+    for e in exact:
+        pubs += [e, e.lower(), e + "x", e[:-1]]
+    for pre in rtb.QUIRKS_PUBLIC_PREFIXES + [l.lower() for l in limited]:
+        pubs += [pre + "en", pre.upper() + "EN", pre[:-1]]
+    ibm = "http://www.ibm.com/data/dtd/v11/ibmxhtml1-transitional.dtd"
+    syss = [None, "", "x", ibm, ibm.upper(), ibm + "x", "about:legacy-compat"]
+    out = []
+    for name in ("html", "HTML", "htm", ""):
+        for pub in pubs:
+            for sysid in syss:
+                t = "<!DOCTYPE" + (" " + name if name else "")
+                q = "'" if (pub and '"' in pub) else '"'
+                if pub is not None:
+                    t += " PUBLIC %s%s%s" % (q, pub, q)
+                    if sysid is not None:
+                        t += ' "%s"' % sysid
+                elif sysid is not None:
+                    t += ' SYSTEM "%s"' % sysid
+                out.append(t + "><p>a<table>")
+    return out
+
+
+def _doctype_shard(texts):
+    import html5lib
+    out = []
+    modes = {}
+    for text in texts:
+        j = judge(text, None, False)
+        v = None
+        if j is not None:
+            v = engine.Violation(H, {"theme": "DOCTYPE", "container": None, "scripting": False}, text, j[2], j[3], j[0], j[1])
+        else:
+            # the recorded compatibility mode itself (also visible to callers as parser.compatMode)
+            tb = rtb.TreeBuilder(text, scripting=False)
+            tb.run()
+            p = html5lib.HTMLParser(tree=tw.builder("dom"))
+            p.parse(text)
+            exp = {"quirks": "quirks", "limited-quirks": "limited quirks", "no-quirks": "no quirks"}[tb.quirks]
+            modes[exp] = modes.get(exp, 0) + 1
+            if p.compatMode != exp:
+                v = engine.Violation(H, {"theme": "DOCTYPE", "container": None, "scripting": False}, text, exp, p.compatMode,
+                                     "compatMode differs from the WHATWG quirks-mode rules", "compatMode:%s->%s" % (exp, p.compatMode))
+        out.append(v)
+    return out, modes
+
+
 def execute(config, case):
     j = judge(case, config.get("container"), config.get("scripting", False))
     if j is None:
@@ -122,6 +176,21 @@ def run(run):
                 if k not in classes or len(v.case) < len(classes[k].case):
                     classes[k] = v
         run.sample({"theme": theme, "text": tw.text_of(theme, tuple(range(2, 2 + d)))})
+    if not only or "DOCTYPE" in only.split(","):
+        cases = doctype_cases()
+        n = 0
+        modes = {}
+        shards = [cases[i:i + 200] for i in range(0, len(cases), 200)]
+        for vs, md in engine.pmap(_doctype_shard, shards, chunksize=1):
+            for k, c in md.items():
+                modes[k] = modes.get(k, 0) + c
+            for v in vs:
+                n += 1
+                if v is not None and (v.diff_class not in classes or len(v.case) < len(classes[v.diff_class].case)):
+                    classes[v.diff_class] = v
+        tot_t += n
+        per["DOCTYPE/document"] = {"cases": n, "modes_expected": modes}
+        run.sample({"theme": "DOCTYPE", "text": cases[len(cases) // 2]})
     for v in classes.values():
         run.violation(v)
     run.set("states", tot_s)
